@@ -24,8 +24,66 @@ func init() {
 			"clientHandshakeState.processServerHello", "clientHandshakeState.readFinished",
 			"Conn.verifyServerCertificate", "Conn.loadSession",
 			"eccKeyAgreement.processServerKeyExchange", "sm2ECDHEKeyAgreement.processServerKeyExchange",
-			"eccKeyAgreement.generateClientKeyExchange", "sm2ECDHEKeyAgreement.generateClientKeyExchange")
+			"eccKeyAgreement.generateClientKeyExchange", "sm2ECDHEKeyAgreement.generateClientKeyExchange",
+			"lruSessionCache.Put", "SessionState.clone")
 	}
+}
+
+// caEvictionShape inspects the eviction path of lruSessionCache.Put — the statements between
+// `elem := c.q.Back()` and the reuse of the entry (`entry.state = cs`) — for what it does to
+// the master secret of the evicted SessionState (reached as `entry.state` or through a local
+// alias `x := entry.state`): wiped with setZero? dropped (`… = nil`) afterwards?
+func caEvictionShape(p *pkg) (found, wipes, drops bool) {
+	stmts := body(p, "lruSessionCache.Put")
+	start := -1
+	for i, st := range stmts {
+		if as, ok := st.(*ast.AssignStmt); ok && len(as.Rhs) == 1 && p.src(as.Rhs[0]) == "c.q.Back()" {
+			start = i
+		}
+	}
+	if start < 0 {
+		return
+	}
+	names := map[string]bool{"entry.state": true}
+	done := false
+	for _, st := range stmts[start+1:] {
+		if done {
+			break
+		}
+		ast.Inspect(st, func(n ast.Node) bool {
+			if done {
+				return false
+			}
+			switch t := n.(type) {
+			case *ast.AssignStmt:
+				if len(t.Lhs) != 1 || len(t.Rhs) != 1 {
+					return true
+				}
+				lhs, rhs := p.src(t.Lhs[0]), p.src(t.Rhs[0])
+				if lhs == "entry.state" {
+					// the entry is reused for the new session: the evicted one is out of reach
+					found, done = true, true
+					return false
+				}
+				if id, ok := t.Lhs[0].(*ast.Ident); ok && names[rhs] {
+					names[id.Name] = true
+				}
+				if rhs == "nil" && strings.HasSuffix(lhs, ".masterSecret") && names[strings.TrimSuffix(lhs, ".masterSecret")] {
+					drops = true
+				}
+			case *ast.ExprStmt:
+				if call, ok := t.X.(*ast.CallExpr); ok && p.src(call.Fun) == "setZero" && len(call.Args) == 1 {
+					a := p.src(call.Args[0])
+					// wiping after the slice was dropped wipes nothing
+					if strings.HasSuffix(a, ".masterSecret") && names[strings.TrimSuffix(a, ".masterSecret")] && !drops {
+						wipes = true
+					}
+				}
+			}
+			return true
+		})
+	}
+	return
 }
 
 // caCompletionStores: the two spellings of "record that the handshake completed".
@@ -322,6 +380,70 @@ func emitClientAuthn(e *emitter, p *pkg) {
 	e.strList("caResumeVerifyOpts", rOpts)
 	e.natList("caResumeVerifiedIdx", rIdx, true)
 	e.raw("caResumeMinCerts", "Nat", strconv.FormatInt(rMin, 10), rMin)
+
+	// --- the master secret of a cached session: what an eviction leaves behind in the
+	// SessionState (a concurrent loadSession may still hold the pointer SessionCache.Get
+	// returned), does loadSession go on with a private deep copy, and does processServerHello
+	// refuse a session without a secret
+	evFound, evWipes, evDrops := caEvictionShape(p)
+	if !evFound {
+		e.nat("caEvictionPathFound", 0, false)
+	} else {
+		e.nat("caEvictionPathFound", 1, true)
+	}
+	e.boolean("caEvictWipesSecret", evFound && evWipes)
+	e.boolean("caEvictDropsSecret", evFound && evDrops)
+	clones := false
+	for _, st := range body(p, "Conn.loadSession") {
+		as, ok := st.(*ast.AssignStmt)
+		if !ok || len(as.Lhs) != 1 || len(as.Rhs) != 1 {
+			continue
+		}
+		if p.src(as.Lhs[0]) == "hello.sessionId" {
+			break // offered: a copy taken later is too late
+		}
+		if p.src(as.Lhs[0]) == "session" && p.src(as.Rhs[0]) == "session.clone()" {
+			clones = true
+		}
+	}
+	deep := false
+	if fd := p.funcs["SessionState.clone"]; fd != nil && fd.Body != nil {
+		ast.Inspect(fd.Body, func(n ast.Node) bool {
+			if call, ok := n.(*ast.CallExpr); ok && p.src(call) == "copy(cp.masterSecret, s.masterSecret)" {
+				deep = true
+			}
+			return true
+		})
+	}
+	e.boolean("caLoadSessionClones", clones && deep)
+	secretGuard := false
+	for _, st := range body(p, "clientHandshakeState.processServerHello") {
+		if as, ok := st.(*ast.AssignStmt); ok && len(as.Lhs) == 1 && p.src(as.Lhs[0]) == "c.peerCertificates" {
+			break // the session is adopted: a test after this point guards nothing
+		}
+		is, ok := st.(*ast.IfStmt)
+		if !ok {
+			continue
+		}
+		endsInReturn := func(b *ast.BlockStmt) bool {
+			if b == nil || len(b.List) == 0 {
+				return false
+			}
+			rs, ok := b.List[len(b.List)-1].(*ast.ReturnStmt)
+			return ok && len(rs.Results) == 2 && p.src(rs.Results[1]) != "nil"
+		}
+		switch p.src(is.Cond) {
+		case "len(hs.session.masterSecret) > 0", "len(hs.session.masterSecret) != 0":
+			if blk, ok := is.Else.(*ast.BlockStmt); ok && endsInReturn(blk) {
+				secretGuard = true
+			}
+		case "len(hs.session.masterSecret) == 0", "len(hs.session.masterSecret) < 1":
+			if endsInReturn(is.Body) {
+				secretGuard = true
+			}
+		}
+	}
+	e.boolean("caResumeSecretGuard", secretGuard)
 
 	// --- readFinished: how the verify data are compared
 	cmp := ""
